@@ -223,11 +223,12 @@ Fixpoint pfresh (A : list N) (s : stmt) : bool :=
     | (_, c, b) :: r => fresh_list A (ids c) && pfresh (rev_append (ids c) A) b && go A r
     end in
   match s with
-  | Substitute _ _ => false
+  | Substitute _ _ => true      (* not produced by shrinking; of no interest here *)
   | Call _ _ | Invoke _ _ _ _ | Exit _ => true
   | Let v _ _ _ n | Literal _ v n | Op _ _ _ v n => negb (memN (idn v) A) && pfresh (idn v :: A) n
   | Switch _ _ cls => go A cls
-  | Create v _ _ cls n => go A cls && negb (memN (idn v) A) && pfresh (idn v :: A) n
+  | Create v _ (Some _) cls n => true      (* annotated closure environments: after linearization only *)
+  | Create v _ None cls n => go A cls && negb (memN (idn v) A) && pfresh (idn v :: A) n
   | PrintI64 _ _ n => pfresh A n
   | IfC _ _ _ t e => pfresh A t && pfresh A e
   end.
@@ -235,8 +236,8 @@ Definition pfresh_cls (A : list N) (cls : list (ident * ctx * stmt)) : bool :=
   forallb (fun c => fresh_list A (ids (snd (fst c))) && pfresh (rev_append (ids (snd (fst c))) A) (snd c)) cls.
 Lemma pfresh_switch : forall A v t cls, pfresh A (Switch v t cls) = pfresh_cls A cls.
 Proof. intros. simpl. unfold pfresh_cls. induction cls as [|[[x c] b] r IH]; simpl; [reflexivity|]. now rewrite IH. Qed.
-Lemma pfresh_create : forall A v t env cls n,
-  pfresh A (Create v t env cls n) = pfresh_cls A cls && negb (memN (idn v) A) && pfresh (idn v :: A) n.
+Lemma pfresh_create : forall A v t cls n,
+  pfresh A (Create v t None cls n) = pfresh_cls A cls && negb (memN (idn v) A) && pfresh (idn v :: A) n.
 Proof.
   intros. simpl. f_equal. f_equal. unfold pfresh_cls. induction cls as [|[[x c] b] r IH]; simpl; [reflexivity|]. now rewrite IH.
 Qed.
@@ -248,7 +249,8 @@ Proof.
     try (simpl; now rewrite ?H, ?H0).
   - rewrite arn_switch, !pfresh_switch. unfold pfresh_cls, arn_cls. rewrite forallb_map.
     induction H as [|[[x c] b] r Hb _ IH]; [reflexivity|]. simpl in *. now rewrite Hb, IH.
-  - rewrite arn_create, !pfresh_create, H0. f_equal. f_equal. unfold pfresh_cls, arn_cls. rewrite forallb_map.
+  - rewrite arn_create. destruct env as [ce|]; [reflexivity|]. cbn [option_map]. rewrite !pfresh_create, H0. f_equal. f_equal.
+    unfold pfresh_cls, arn_cls. rewrite forallb_map.
     induction H as [|[[x c] b] r Hb _ IH]; [reflexivity|]. simpl in *. now rewrite Hb, IH.
 Qed.
 Lemma in_rev_append : forall {X} (a b : list X) x, In x (rev_append a b) <-> In x a \/ In x b.
@@ -414,3 +416,32 @@ Lemma nc_ifc : forall L so a b t e, nc_stmt L (FsIfC so a b t e) = true -> nc_st
 Proof.
   intros L so a b t e H. simpl in H. apply andb_prop in H as [H He]. apply andb_prop in H as [_ Ht]. auto.
 Qed.
+
+(* only membership in the scope matters *)
+Lemma fresh_list_ext : forall xs A A', (forall i, memN i A = memN i A') -> fresh_list A xs = fresh_list A' xs.
+Proof.
+  induction xs as [|x r IH]; intros A A' H; [reflexivity|]. simpl. rewrite (H x). f_equal.
+  apply IH. intros i. unfold memN in *. simpl. now rewrite H.
+Qed.
+Lemma memN_rev_append : forall i a A A', (forall j, memN j A = memN j A') -> memN i (rev_append a A) = memN i (rev_append a A').
+Proof.
+  intros i a. induction a as [|x r IH]; intros A A' H; simpl; [apply H|].
+  apply IH. intros j. unfold memN in *. simpl. now rewrite H.
+Qed.
+Lemma pfresh_ext : forall s A A', (forall i, memN i A = memN i A') -> pfresh A s = pfresh A' s.
+Proof.
+  apply (stmt_ind' (fun s => forall A A', (forall i, memN i A = memN i A') -> pfresh A s = pfresh A' s)); intros; try reflexivity.
+  - simpl. rewrite (H0 (idn v)). f_equal. apply H. intros i. unfold memN in *. simpl. now rewrite H0.
+  - rewrite !pfresh_switch. unfold pfresh_cls. induction H as [|[[x c] b] r Hb _ IH]; [reflexivity|]. simpl in *.
+    rewrite (fresh_list_ext _ A A' H0), IH. f_equal. f_equal. apply Hb. intros i. now apply memN_rev_append.
+  - destruct env as [ce|]; [reflexivity|]. rewrite !pfresh_create. rewrite (H1 (idn v)).
+    rewrite (H0 (idn v :: A) (idn v :: A')); [|intros i; unfold memN in *; simpl; now rewrite H1]. f_equal. f_equal.
+    unfold pfresh_cls. induction H as [|[[x c] b] r Hb _ IH]; [reflexivity|]. simpl in *.
+    rewrite (fresh_list_ext _ A A' H1), IH. f_equal. f_equal. apply Hb. intros i. now apply memN_rev_append.
+  - simpl. rewrite (H0 (idn v)). f_equal. apply H. intros i. unfold memN in *. simpl. now rewrite H0.
+  - simpl. rewrite (H0 (idn v)). f_equal. apply H. intros i. unfold memN in *. simpl. now rewrite H0.
+  - simpl. now apply H.
+  - simpl. rewrite (H A A' H1), (H0 A A' H1). reflexivity.
+Qed.
+Lemma memN_ext_of_in : forall A A', (forall i, In i A <-> In i A') -> forall i, memN i A = memN i A'.
+Proof. exact mem_id_ext_of_in. Qed.
